@@ -201,7 +201,8 @@ def work_generated(ctx, seed):
 def work_patho(ctx, seed):
     import random
     rng = random.Random(seed)
-    which = [gen.patho_dup_function, gen.patho_mixed_fused, gen.patho_spd, gen.patho_spd_free_low, gen.patho_pd_fused][seed % 5]
+    pool = [f for f in gen.PATHOLOGICAL if f is not gen.patho_contraction_on_free]
+    which = pool[seed % len(pool)]
     b = which(rng)
     for op, args in OPS:
         check_op(ctx, b, op, args, 'patho:%s:%d' % (which.__name__, seed), 'patho:' + which.__name__)
